@@ -563,6 +563,10 @@ impl Property for C13 {
         } else {
             (d.a0.clone(), d.a1.clone(), d.a2.clone(), d.b0.clone(), d.b1.clone(), d.b2.clone())
         };
+        // size of the terms that make up the right-hand side actually solved for: |b| itself, or for
+        // least squares sum_r |A_ri| |b_r| (A^T b can cancel to almost nothing; its rounding error
+        // does not)
+        let c0_abs: Vec<f64> = if c.lsq { (0..c.cols).map(|i| (0..c.rows).map(|r| (d.a0[r][i] * d.b0[r]).abs()).sum()).collect() } else { c0.iter().map(|x| x.abs()).collect() };
         let (inv, swaps) = match inverse(&m0) {
             Some(x) => x,
             None => {
@@ -597,7 +601,7 @@ impl Property for C13 {
         let r0 = matvec(&m0, &sol.x0);
         let s0 = matvec_abs(&m0, &sol.x0);
         for i in 0..n {
-            if !((r0[i] - c0[i]).abs() <= tol * (s0[i] + c0[i].abs()) + 1e-300) {
+            if !((r0[i] - c0[i]).abs() <= tol * (s0[i] + c0_abs[i]) + 1e-300) {
                 v.fail("solution does not satisfy A x = b in value", format!("row {}: A x = {:e}, b = {:e} (cond {:.1e})", i, r0[i], c0[i], cond));
                 return v;
             }
@@ -648,7 +652,8 @@ impl Property for C13 {
             v.label("row-permutation:checked");
             match catch(|| c.solve(&order)) {
                 Ok(p) => {
-                    let xs = sol.x0.iter().fold(0.0f64, |m, x| m.max(x.abs()));
+                    // (plus what the rounding of the right-hand side's terms can move x by)
+                    let xs = sol.x0.iter().fold(0.0f64, |m, x| m.max(x.abs())) + norm1(&inv) * c0_abs.iter().cloned().fold(0.0f64, f64::max);
                     for i in 0..n {
                         if !((p.x0[i] - sol.x0[i]).abs() <= tol * xs + 1e-300) {
                             v.fail("row order of the system changes the solution", format!("x[{}]: {:e} vs {:e} (cond {:.1e})", i, p.x0[i], sol.x0[i], cond));
